@@ -7,6 +7,7 @@ mod gen;
 mod gen2;
 mod gen3;
 mod gen4;
+mod gen5;
 mod oracle;
 mod oracle2;
 mod oracle3;
@@ -104,6 +105,8 @@ fn main() {
                 "bigstream" => gen4::gen_bigstream(&mut rng, n, thorough),
                 "sprefix" => gen4::gen_sprefix(&mut rng, n, thorough),
                 "streamhdr" => gen4::gen_streamhdr(&mut rng, n, thorough),
+                "streamcache" => gen5::gen_streamcache(&mut rng, n, thorough),
+                "identstream" => gen5::gen_identstream(&mut rng, n, thorough),
                 _ => {
                     eprintln!("unknown stream {}", stream);
                     std::process::exit(2);
